@@ -68,6 +68,10 @@ type Report struct {
 	Evals       int      // instance-level evaluations behind the (aggregated) obligations
 	samples     []any
 	seenKey     map[string]bool
+	// PremiseMode: Undecide is recorded as a note (set while a property runs an analysis borrowed as a premise)
+	PremiseMode bool
+	// PremiseKeep says which violations of a borrowed analysis still count in premise mode
+	PremiseKeep func(rule, what, detail string) bool
 }
 
 func NewReport(prop, tier string) *Report {
@@ -91,10 +95,22 @@ func (r *Report) Pass(rule, construct, what, pos, detail string) {
 }
 
 func (r *Report) Violate(rule, construct, what, pos, detail, witness string) {
+	if r.PremiseMode && !r.PremiseKeep(rule, what, detail) {
+		// the borrowed whole-program dataflow analyses are conservative about aliasing through parameters; outside
+		// their home properties (C10, C20) only their alias-independent findings count
+		r.add(&Obligation{Rule: rule, Construct: construct, What: what, Status: Info, Pos: pos, Detail: "reported by the borrowed analysis, decided in its home properties C10/C20: " + detail})
+		return
+	}
 	r.add(&Obligation{Rule: rule, Construct: construct, What: what, Status: Violated, Pos: pos, Detail: detail, Witness: witness})
 }
 
 func (r *Report) Undecide(rule, construct, what, pos, detail string) {
+	if r.PremiseMode {
+		// a whole-program premise analysis that could not classify a construct does not make the property that
+		// borrows it undecided (its home properties run it in full); it is recorded
+		r.add(&Obligation{Rule: rule, Construct: construct, What: what, Status: Info, Pos: pos, Detail: "premise not established for this construct (undecided in the borrowed analysis): " + detail})
+		return
+	}
 	r.add(&Obligation{Rule: rule, Construct: construct, What: what, Status: Undecided, Pos: pos, Detail: detail})
 }
 
